@@ -125,6 +125,9 @@ def c11_params(rng: random.Random, cell: Optional[dict] = None) -> dict:
     p['pierce_init_delay'] = xr.choice([0.0, 0.0, 0.0, 2.0, 6.0, 20.0, 45.0]) if p['indirect'] == 'pierce-fast' else 0.0
     # the peer pierces twice with the same ticket (two connections, same instant or a few ms apart)
     p['dup_pierce'] = xr.choice([None, None, None, None, 0.0, 0.0, 0.002]) if p['indirect'] in ('pierce-fast', 'pierce-slow') else None
+    for k in ('dup_pierce', 'my_listen', 'pierce_init_delay', 'omit_obf_fields'):
+        if cell and k in cell:
+            p[k] = cell[k]
     return p
 
 
